@@ -48,6 +48,9 @@ def run(ctx, col, tier):
 
     from ..rules import ignoredparam
     ignoredparam.run(ctx, col, ('swcgeom.transforms.branch', 'swcgeom.transforms.branch_tree', 'swcgeom.transforms.tree'))
+    from ..rules import zerolen
+    zerolen.run(ctx, col, ('swcgeom.transforms.branch', 'swcgeom.transforms.branch_tree', 'swcgeom.transforms.tree'))
+    col.guard(one_to_one, ctx, col)
     col.guard(anchored, ctx, col)
     col.guard(shapes, ctx, col)
     col.guard(argdisc, ctx, col)
@@ -429,3 +432,27 @@ def anchored(ctx, col):
             col.bad("R-SPACING", d.qualname, d.loc(divs[0]), "interpolation is defined on zero-length segments too (np.interp)",
                     f"`{norm_src(divs[0])[:80]}` divides by the length of the located segment: on a zero-length segment (a repeated node) this "
                     f"is 0/0 and the sample -- e.g. the end point -- becomes NaN", stmt="interp", definite=True)
+
+
+
+def one_to_one(ctx, col):
+    """Pairing resampled branches with the end nodes they lead to must be a one-to-one matching."""
+    col.rule("R-ONE2ONE", "re-assembly pairs the branches leaving a node one-to-one with that node's children: no per-row / per-column arg-min (every "
+             "branch choosing its nearest end node independently gives two branches the same end node as soon as two ends coincide or tie, and leaves "
+             "another child unmatched -- its subtree is dropped and the other one duplicated)", floor=1)
+    d = ctx.repo.get_def("swcgeom.transforms.branch_tree.BranchTreeAssembler.pair")
+    hits = 0
+    for c in own_nodes(d):
+        if isinstance(c, ast.Call) and (dotted(c.func) or "").rsplit(".", 1)[-1] in ("argmin", "argmax", "argsort", "nanargmin"):
+            has_recv = isinstance(c.func, ast.Attribute) and not (dotted(c.func) or "").startswith(("np.", "numpy."))
+            axis = next((k.value for k in c.keywords if k.arg == "axis"), None)
+            if axis is None and len(c.args) >= (1 if has_recv else 2):
+                axis = c.args[0 if has_recv else 1]
+            if axis is not None and not (isinstance(axis, ast.Constant) and axis.value is None):
+                hits += 1
+                col.bad("R-ONE2ONE", d.qualname, d.loc(c), "branches and end nodes are matched one-to-one",
+                        f"`{norm_src(c)}` lets every branch (row) pick its nearest end node independently: nothing prevents two branches from picking the same "
+                        f"end node (coincident or tied end points), so one child of the furcation is emitted twice and another one, with its whole subtree, is lost",
+                        stmt="pair:axis-argmin", definite=True)
+    if not hits:
+        col.ok("R-ONE2ONE", d.qualname, d.loc(), "branches and end nodes are matched one-to-one", "no per-row arg-min in the pairing", stmt="pair:axis-argmin")
